@@ -12,21 +12,23 @@ static const char *KEYS[KMAX] = { "a", "b", "c", "d", "e", "f", "g", "h" };
 static const char *VALS[2] = { "1", "2" };
 
 typedef struct { spif_map_t m; int has[KMAX]; int val[KMAX]; int n; } st_t;
-enum { K_SET, K_SET_PAIR, K_REMOVE };
+enum { K_SET, K_SET_PAIR, K_REMOVE, K_SET_OWN };      /* K_SET_OWN: the value argument is an object the map itself holds (v=0: under the same key, v=1: under the smallest other key) */
 typedef struct { int k, key, v; } op_t;
-static op_t OPS[64]; static int NOPS;
+static op_t OPS[128]; static int NOPS;
 
 static void build_ops(void)
 {
     NOPS = 0;
     for (int k = 0; k < NK; k++) for (int v = 0; v < 2; v++) { OPS[NOPS++] = (op_t) { K_SET, k, v }; OPS[NOPS++] = (op_t) { K_SET_PAIR, k, v }; }
     for (int k = 0; k < NK; k++) OPS[NOPS++] = (op_t) { K_REMOVE, k, 0 };
+    for (int k = 0; k < NK; k++) for (int v = 0; v < 2; v++) OPS[NOPS++] = (op_t) { K_SET_OWN, k, v };
 }
 static void op_name(int i, char *b, size_t n)
 {
     op_t *o = &OPS[i];
     if (o->k == K_SET) snprintf(b, n, "set(%s,%s)", KEYS[o->key], VALS[o->v]);
     else if (o->k == K_SET_PAIR) snprintf(b, n, "set(pair(%s,%s),NULL)", KEYS[o->key], VALS[o->v]);
+    else if (o->k == K_SET_OWN) snprintf(b, n, o->v ? "set(%s, the value object the map holds under its smallest other key)" : "set(%s, get(%s))", KEYS[o->key], KEYS[o->key]);
     else snprintf(b, n, "remove(%s)", KEYS[o->key]);
 }
 static spif_map_t new_map(void)
@@ -40,9 +42,16 @@ static spif_map_t new_map(void)
 static spif_obj_t S_(const char *t) { return SPIF_OBJ(spif_str_new_from_ptr((spif_charptr_t) t)); }
 static void scribble_del(spif_obj_t o) { spif_str_append_char(SPIF_STR(o), '!'); spif_str_reverse(SPIF_STR(o)); SPIF_OBJ_DEL(o); }
 static void *fresh(void) { st_t *s = calloc(1, sizeof *s); s->m = new_map(); return s; }
-static int enabled(void *vs, int op) { (void) vs; (void) op; return 1; }
+static int other_key(void *vs, int key);
+static int enabled(void *vs, int op)
+{
+    op_t *o = &OPS[op];
+    if (o->k != K_SET_OWN) return 1;
+    return o->v ? other_key(vs, o->key) >= 0 : ((st_t *) vs)->has[o->key];
+}
 static const char *site(const char *m) { static char b[64]; snprintf(b, sizeof b, "%s.%s", CN[CLS], m); return b; }
 static int is_str(spif_obj_t o, const char *t) { return o && SPIF_OBJ_IS_STR(o) && SPIF_STR(o)->s && !strcmp((char *) SPIF_STR(o)->s, t); }
+static int other_key(void *vs, int key) { st_t *s = vs; for (int k = 0; k < NK; k++) if (k != key && s->has[k]) return k; return -1; }
 static const char *pos_shape(st_t *s, int key)
 {
     int lo = -1, hi = -1;
@@ -98,6 +107,18 @@ static void apply(void *vs, int op)
         if ((r ? 1 : 0) != s->has[o->key]) FAIL(site(m), "model:return", shape, "set returned %d, key %s present", (int) r, s->has[o->key] ? "was" : "was not");
         if (!s->has[o->key]) { s->has[o->key] = 1; s->n++; }
         s->val[o->key] = o->v;
+    } else if (o->k == K_SET_OWN) {
+        int src = o->v ? other_key(s, o->key) : o->key;
+        spif_obj_t K = S_(KEYS[o->key]), KS = S_(KEYS[src]); m = "set(own value)";
+        spif_obj_t V = SPIF_MAP_GET(s->m, KS);              /* the map copies what it is given, so one of its own objects is a legal argument */
+        if (!V) FAIL(site("get"), "model:return", shape, "get of a present key returned NULL");
+        else {
+            spif_bool_t r = SPIF_MAP_SET(s->m, K, V);
+            if ((r ? 1 : 0) != s->has[o->key]) FAIL(site(m), "model:return", shape, "set returned %d, key %s present", (int) r, s->has[o->key] ? "was" : "was not");
+            if (!s->has[o->key]) { s->has[o->key] = 1; s->n++; }
+            s->val[o->key] = s->val[src];
+        }
+        scribble_del(K); SPIF_OBJ_DEL(KS);
     } else {
         spif_obj_t K = S_(KEYS[o->key]); m = "remove";
         spif_obj_t r = SPIF_MAP_REMOVE(s->m, K);
@@ -196,6 +217,50 @@ static void canon(void *vs, char *b, size_t n)
 }
 static void teardown(void *vs) { st_t *s = vs; SPIF_MAP_DEL(s->m); free(s); }
 
+/* ---- large maps: key counts around 127/128, 255/256 and 512 set in ascending, descending or interleaved order; every key is
+ * read back, a third of them overwritten, keys come out sorted, then the smallest, greatest and a middle key are removed */
+static const int BIGN[] = { 126, 127, 128, 129, 254, 255, 256, 257, 511, 512, 513 };
+#define NBIGN ((int) (sizeof BIGN / sizeof BIGN[0]))
+static void big_decode(uint64_t idx, int *cls, int *n, int *order) { *cls = (int) (idx % 3); idx /= 3; *order = (int) (idx % 3); idx /= 3; *n = BIGN[idx % NBIGN]; }
+static void big_desc(uint64_t idx, void *ctx, char *b, size_t n_)
+{
+    int cls, n, order; (void) ctx; big_decode(idx, &cls, &n, &order);
+    snprintf(b, n_, "%s map: %d keys set in %s order, every third overwritten; get of every key, sorted keys, removal of the smallest, greatest and a middle key", CN[cls], n, order == 0 ? "ascending" : (order == 1 ? "descending" : "interleaved"));
+}
+static void big_case(uint64_t idx, void *ctx)
+{
+    int cls, n, order; (void) ctx; big_decode(idx, &cls, &n, &order);
+    CLS = cls;
+    char shape[64]; snprintf(shape, sizeof shape, "%d keys", n); mc_set_shape(shape);
+    spif_map_t mp = new_map(); static int val[700], has[700]; char kt[16], vt[16];
+    memset(has, 0, sizeof has);
+    for (int i = 0; i < n; i++) { int k = order == 0 ? i : (order == 1 ? n - 1 - i : (i % 2 ? n - 1 - i / 2 : i / 2));
+        snprintf(kt, sizeof kt, "k%05d", k); snprintf(vt, sizeof vt, "v%d", k); spif_obj_t K = S_(kt), V = S_(vt);
+        if (SPIF_MAP_SET(mp, K, V)) FAIL(site("set"), "model:return", shape, "set of the new key %s reported a replacement", kt);
+        scribble_del(K); scribble_del(V); has[k] = 1; val[k] = k; }
+    for (int k = 0; k < n; k += 3) { snprintf(kt, sizeof kt, "k%05d", k); snprintf(vt, sizeof vt, "v%d", k + 100000); spif_obj_t K = S_(kt), V = S_(vt);
+        if (!SPIF_MAP_SET(mp, K, V)) FAIL(site("set"), "model:return", shape, "set of the present key %s did not report a replacement", kt);
+        scribble_del(K); scribble_del(V); val[k] = k + 100000; }
+    int rm[3] = { 0, n - 1, n / 2 };
+    for (int pass = 0; pass < 2; pass++) {
+        int cnt = 0; for (int k = 0; k < n; k++) cnt += has[k];
+        if ((int) SPIF_MAP_COUNT(mp) != cnt) FAIL(site("count"), "model:return", shape, "count=%d, model %d", (int) SPIF_MAP_COUNT(mp), cnt);
+        for (int k = 0; k < n; k++) { snprintf(kt, sizeof kt, "k%05d", k); snprintf(vt, sizeof vt, "v%d", val[k]); spif_obj_t K = S_(kt); spif_obj_t g = SPIF_MAP_GET(mp, K);
+            if (has[k] ? !is_str(g, vt) : g != NULL) { FAIL(site("get"), "model:return", shape, "get(%s) %s", kt, has[k] ? "is not the value most recently set" : "returned a value for a removed key"); SPIF_OBJ_DEL(K); break; }
+            SPIF_OBJ_DEL(K); }
+        { spif_list_t ks = SPIF_MAP_GET_KEYS(mp, (spif_list_t) NULL); int i = 0;
+          if (!ks || (int) SPIF_LIST_COUNT(ks) != cnt) FAIL(site("get_keys"), "model:return", shape, "get_keys has %d entries, model %d", ks ? (int) SPIF_LIST_COUNT(ks) : -1, cnt);
+          else for (int k = 0; k < n; k++) if (has[k]) { snprintf(kt, sizeof kt, "k%05d", k); if (!is_str(SPIF_LIST_GET(ks, i), kt)) { FAIL(site("get_keys"), "model:order", shape, "key list position %d is not %s", i, kt); break; } i++; }
+          if (ks) SPIF_LIST_DEL(ks); }
+        if (pass == 0) for (int r = 0; r < 3; r++) { int k = rm[r]; snprintf(kt, sizeof kt, "k%05d", k); spif_obj_t K = S_(kt); spif_obj_t g = SPIF_MAP_REMOVE(mp, K);
+            if (!g || !SPIF_OBJ_IS_OBJPAIR(g) || !is_str(SPIF_OBJPAIR(g)->key, kt)) FAIL(site("remove"), "model:return", shape, "remove(%s) did not hand back its pair", kt);
+            if (g) SPIF_OBJ_DEL(g);
+            SPIF_OBJ_DEL(K); has[k] = 0; }
+    }
+    SPIF_MAP_DEL(mp);
+    mc_nontrivial();
+    mc_outcome((uint64_t) n * 9 + (uint64_t) order * 3 + (uint64_t) cls);
+}
 int main(int argc, char **argv)
 {
     mc_init("C03", argc, argv);
@@ -211,5 +276,6 @@ int main(int argc, char **argv)
         mc_sys sys = { CN[CLS], NOPS, op_name, fresh, enabled, apply, probe, canon, teardown, (int) mc_arg_int("lookahead", 1) };
         mc_e1_run(&sys, (int) mc_arg_int("depth", 40));
     }
+    if (!only) mc_e2_level("large", 513, (uint64_t) 3 * 3 * NBIGN, big_case, big_desc, NULL);
     return mc_finish();
 }
